@@ -13,6 +13,10 @@
 //	                                          then the row-path limitIterator; node = "-" or "ts:sid:ver:val,..."
 //	smerge <asc|desc> <grp>|...               stream.MergeGroupElements; grp = "-" or "ts:id,..."
 //	topq   <n> <top|bot> v1,v2,...            measure.TopQueue Insert* then Elements
+//	tsidx  <asc|desc|unspec|nil> <maxBatch> <maxTrace> <inst>|<inst>...
+//	                                          banyand/trace streamSIDXTraceBatches over real sidx instances (one scratch sidx per
+//	                                          <inst>; inst = "-" or parts separated by ';', part = "key:traceID,..."; series 1)
+//	slimit <asc|desc> <off> <lim> <page>|...  stream row-path plan limit -> localIndexScan over storage pages ("-" or "ts,ts,..")
 //	mqr    <ts|sid> <asc|desc> <min> <max> <sid>+<sid>.. <part>|<part>..
 //	                                          banyand/measure queryResult over real mem parts (one per <part>),
 //	                                          part = "sid:ts:ver:val,..."; output = one "sid=ts:ver:val,.." per Pull
@@ -37,6 +41,7 @@ import (
 	"github.com/apache/skywalking-banyandb/banyand/measure"
 	"github.com/apache/skywalking-banyandb/banyand/observability"
 	"github.com/apache/skywalking-banyandb/banyand/protector"
+	"github.com/apache/skywalking-banyandb/banyand/trace"
 	"github.com/apache/skywalking-banyandb/pkg/fs"
 	"github.com/apache/skywalking-banyandb/pkg/index"
 	itersort "github.com/apache/skywalking-banyandb/pkg/iter/sort"
@@ -413,6 +418,95 @@ func doMQR(f []string) string {
 	return measure.VerifC09Query(parts, sids, minTS, maxTS, f[1] == "ts", f[2] != "desc")
 }
 
+func doTSidx(f []string) string {
+	if len(f) != 5 {
+		return "bad-op"
+	}
+	caseNo++
+	req := sidx.QueryRequest{SeriesIDs: []common.SeriesID{1}}
+	switch f[1] {
+	case "asc":
+		req.Order = &index.OrderBy{Sort: modelv1.Sort_SORT_ASC}
+	case "desc":
+		req.Order = &index.OrderBy{Sort: modelv1.Sort_SORT_DESC}
+	case "unspec":
+		req.Order = &index.OrderBy{Sort: modelv1.Sort_SORT_UNSPECIFIED}
+	}
+	req.MaxBatchSize, _ = strconv.Atoi(f[2])
+	maxTrace, _ := strconv.Atoi(f[3])
+	var instances []sidx.SIDX
+	root := filepath.Join(scratch, fmt.Sprintf("t%d", caseNo))
+	defer os.RemoveAll(root)
+	defer func() {
+		for _, s := range instances {
+			_ = s.Close()
+		}
+	}()
+	for i, spec := range strings.Split(f[4], "|") {
+		dir := filepath.Join(root, fmt.Sprintf("i%d", i))
+		if err := os.MkdirAll(dir, 0o755); err != nil {
+			panic(err)
+		}
+		opts, err := sidx.NewOptions(dir, protector.NewMemory(observability.NewBypassRegistry()))
+		if err != nil {
+			panic(err)
+		}
+		s, err := sidx.NewSIDX(fs.NewLocalFileSystem(), opts)
+		if err != nil {
+			panic(err)
+		}
+		instances = append(instances, s)
+		if spec == "-" {
+			continue
+		}
+		for pi, part := range strings.Split(spec, ";") {
+			var reqs []sidx.WriteRequest
+			for _, e := range strings.Split(part, ",") {
+				kv := strings.SplitN(e, ":", 2)
+				key, _ := strconv.ParseInt(kv[0], 10, 64)
+				reqs = append(reqs, sidx.WriteRequest{SeriesID: 1, Key: key, Data: trace.VerifC09EncodeTraceID(kv[1])})
+			}
+			mp, cerr := s.ConvertToMemPart(reqs, 1, nil, nil)
+			if cerr != nil {
+				return "ERR-write"
+			}
+			s.IntroduceMemPart(uint64(pi+1), mp)
+		}
+	}
+	return trace.VerifC09StreamSIDX(instances, req, maxTrace)
+}
+
+func doSLimit(f []string) string {
+	if len(f) != 5 {
+		return "bad-op"
+	}
+	off, _ := strconv.ParseUint(f[2], 10, 32)
+	lim, _ := strconv.ParseUint(f[3], 10, 32)
+	var pages [][]int64
+	for _, spec := range strings.Split(f[4], "|") {
+		pg := []int64{}
+		if spec != "-" {
+			for _, x := range strings.Split(spec, ",") {
+				v, _ := strconv.ParseInt(x, 10, 64)
+				pg = append(pg, v)
+			}
+		}
+		pages = append(pages, pg)
+	}
+	res, err := lstream.VerifC09Limit(pages, uint32(off), uint32(lim), f[1] == "desc")
+	if err != nil {
+		return "ERR"
+	}
+	if len(res) == 0 {
+		return "-"
+	}
+	var out []string
+	for _, v := range res {
+		out = append(out, strconv.FormatInt(v, 10))
+	}
+	return strings.Join(out, ",")
+}
+
 func handle(f []string) string {
 	if len(f) == 0 {
 		return "bad-op"
@@ -430,6 +524,10 @@ func handle(f []string) string {
 		return doTopQ(f)
 	case "mqr":
 		return doMQR(f)
+	case "tsidx":
+		return doTSidx(f)
+	case "slimit":
+		return doSLimit(f)
 	}
 	return "bad-op"
 }
